@@ -94,8 +94,14 @@ EvTick ==
   /\ g' = [g EXCEPT !.clock = @ + E.n]
   /\ UNCHANGED <<b, met, owed, lost, imported, src, bad, known>>
 
+(* `tail` without `follow`: there is no historical replay and no live side, the read is empty *)
+EvReadTail ==
+  /\ Is("read") /\ E.tail
+  /\ Judge((IF E.res = <<>> THEN {} ELSE {"C11", "C13"}) \cup HttpOk(E.status, TRUE, 200))
+  /\ UNCHANGED <<b, g, met, owed, lost, imported, src, known>>
+
 EvRead ==
-  /\ Is("read")
+  /\ Is("read") /\ ~E.tail
   /\ LET ids == IdsOf(E.res) IN
      /\ LET v == ReadVerdict(g, E.ctx, E.last, E.lim, E.res) IN
         \* a wrong result of a read with a limit is also a matter of C11 ("exactly the first n matching frames")
@@ -236,7 +242,7 @@ EvOther ==
   /\ l' = l + 1
   /\ UNCHANGED <<b, g, met, owed, lost, imported, src, bad, known>>
 
-Next == Reset \/ EvAppend \/ EvImport \/ EvRemove \/ EvTick \/ EvRead \/ EvGet \/ EvHead \/ EvDump
+Next == Reset \/ EvAppend \/ EvImport \/ EvRemove \/ EvTick \/ EvRead \/ EvReadTail \/ EvGet \/ EvHead \/ EvDump
         \/ EvDrain \/ EvReopen \/ EvXferBegin \/ EvXferEnd \/ EvPanic \/ EvCrash \/ EvBad \/ EvFollowProbe \/ EvCas \/ EvSlowRead \/ EvOther
 
 Spec == Init /\ [][Next]_tvars
